@@ -86,6 +86,28 @@ def c16_a(ctx: Ctx):
     return out
 
 
+def _normalised_auto_paths(ctx, R, out):
+    """The automatically generated export / view paths are normalised (os.path.normpath) before they are checked for leaf/node conflicts and used:
+    a state point value '' or '.' otherwise yields 'a/' or 'a/./b', which the component-wise conflict check does not recognise as the directory 'a'."""
+    pf = ctx.prog.funcs.get(IE + ":_make_schema_based_path_function.<locals>.path")
+    k = IE + ":_make_schema_based_path_function|normalised"
+    if pf is None:
+        out.append(ctx.inc(R, None, None, "automatic path function not found", construct=k))
+        return
+    rets = [r for r in body_nodes(pf) if isinstance(r, ast.Return) and r.value is not None]
+    raw = [r for r in rets if not (isinstance(r.value, ast.Call) and common.ext_name(ctx, pf, r.value) == "os.path.normpath")
+           and any(isinstance(x, ast.Call) and ((isinstance(x.func, ast.Attribute) and x.func.attr == "join")) for x in ast.walk(r.value))]
+    ej = ctx.fn(IE + ":_export_jobs")
+    downstream = any(isinstance(c, ast.Call) and common.ext_name(ctx, ej, c) == "os.path.normpath" for c in body_nodes(ej))
+    if raw and not downstream:
+        out.append(ctx.viol(R, pf, raw[0], f"the automatic path function returns {canon(raw[0].value)[:50]} without os.path.normpath (and _export_jobs does not normalise either): a state point value "
+                            "'' or '.' produces 'a/' or 'a/./b'; the leaf/node check compares components and accepts it next to 'a/x', so one job is exported into the directory of another", construct=k))
+    elif rets:
+        out.append(ctx.ok(R, pf, rets[0], "automatically generated paths are normalised before they are checked and used", construct=k))
+    else:
+        out.append(ctx.inc(R, pf, pf.node, "automatic path function has no return", construct=k))
+
+
 @rule("C16-b")
 def c16_b(ctx: Ctx):
     """Leaf/node check is order independent and precedes the copies."""
@@ -170,6 +192,7 @@ def c16_b(ctx: Ctx):
         out.append(ctx.viol(R, f, verdict[1], verdict[2]))
     else:
         out.append(ctx.inc(R, f, verdict[1], verdict[2]))
+    _normalised_auto_paths(ctx, R, out)
     ej = ctx.fn(IE + ":_export_jobs")
     cfg = ctx.cfg(ej)
     chk = common.ids_of(ctx, ej, [s for s, _ in common.stmts_containing_call_to(ctx, ej, quals=(f.qual,))])
